@@ -21,8 +21,8 @@ LEVEL = "exploration"
 RULE = ("case = (ff_ring template | ff_heavy generated design) x 10..30 cycles x 3 schedulers of 13 x seeded "
         "permutation of the update_ff blocks x resets/glitches; non-trivial = >=2 update_ff blocks, >=1 register "
         "changed value at some edge and the flip monitor fired every cycle; distinct = case digest")
-TIERS = {"quick": {"runs": 640, "budget_s": 100, "chunk": 4},
-         "thorough": {"runs": 60000, "budget_s": 1800, "chunk": 8}}
+TIERS = {"quick": {"runs": 1600, "budget_s": 100, "chunk": 4},
+         "thorough": {"runs": 300000, "budget_s": 1800, "chunk": 8}}
 REAL = ["Bits.__ilshift__/_flip", "bitstruct <<=", "SimpleSchedulePass.schedule_ff/schedule_posedge_flip",
         "Mamba2020Pass.schedule_ff", "PrepareSimPass (lock_in_simulation priming of _next, sim_tick)"]
 STUB = ["design generator / templates", "integer reference evaluator", "flip-entry monitor (sys.setprofile)"]
